@@ -366,6 +366,11 @@ func init() {
 			}
 			viols = append(viols, v2...)
 		}
+		if os.Getenv("VERIF_NO_SCHED") == "" {
+			nCC, vCC := c10CommitCancel(t)
+			cov["context_ends_after_commit_runs"] = nCC
+			viols = append(viols, vCC...)
+		}
 		if os.Getenv("VERIF_NO_HIST") == "" {
 			hcov, hviol, _, rc := histPart(t, "C10", tier, c10History(tier), time.Now())
 			if rc != 0 {
